@@ -37,12 +37,12 @@ pub fn all_flag_cfgs(offsets: &[u16], notify_ops: bool, legacy_too: bool) -> Vec
     let mut v = vec![];
     for &off in offsets {
         for bits in 0..8u8 {
-            let c = QCfg { indirect: bits & 1 != 0, event_idx: bits & 2 != 0, ap: bits & 4 != 0, legacy: false, start_off: off, notify_ops, abstract_idx: false };
+            let c = QCfg { indirect: bits & 1 != 0, event_idx: bits & 2 != 0, ap: bits & 4 != 0, legacy: false, start_off: off, notify_ops, abstract_idx: false, trace: false };
             v.push(c);
         }
         if legacy_too {
-            v.push(QCfg { indirect: false, event_idx: false, ap: false, legacy: true, start_off: off, notify_ops, abstract_idx: false });
-            v.push(QCfg { indirect: true, event_idx: true, ap: false, legacy: true, start_off: off, notify_ops, abstract_idx: false });
+            v.push(QCfg { indirect: false, event_idx: false, ap: false, legacy: true, start_off: off, notify_ops, abstract_idx: false, trace: false });
+            v.push(QCfg { indirect: true, event_idx: true, ap: false, legacy: true, start_off: off, notify_ops, abstract_idx: false, trace: false });
         }
     }
     v
